@@ -19,9 +19,16 @@ TEXT_POOL = [
     'trailing spaces   ', '    leading', '%s %d %(x)s', '"""triple"""', "'''triple'''", '#comment', 'a' * 120,
     'path /usr/local/bin/thing', 'user@example.com', '00:00', '1/2/3', '15 Jan 1999', 'Feb 30 2021', '30 Feb 2021',
     '2021-02-30 10:00:00', 'id=7 id=12', '-' * 20, '\\', 'line with \x0c formfeed', 'NULL', 'None', 'True',
+    # log lines stamped long ago: nothing about them is specific to the time of generation
+    '2019-03-04 12:00:01 processed seventeen records', '1999-12-31 23:59:59 rollover ok', '04/03/2009 08:15:00 job done',
+    '15 Jan 1999 10:00:00 start', 'finished at 2001-09-09 01:46:40 exactly',
     # backslash sequences that are malformed escapes in a Python string literal (the command text is quoted into the script)
     'C:\\Users\\me\\Notes', 'cost\\xchange', '\\Notes and \\u12', '\\0 \\777 \\8', 'ends with backslash\\',
 ]
+
+
+OLD_STAMPED = ['2019-03-04 12:00:01 processed seventeen records', '1999-12-31 23:59:59 rollover ok', '04/03/2009 08:15:00 job done',
+               '15 Jan 1999 10:00:00 start', 'finished at 2001-09-09 01:46:40 exactly']
 
 
 def sh_quote(s):
@@ -85,7 +92,8 @@ def gen_case(rng):
     return {'stdout': gen_text(rng), 'stderr': gen_text(rng, 2) if rng.random() < 0.5 else '', 'files': files,
             'status': status, 'iterations': rng.choice([1, 2, 2, 3]), 'flags': flags, 'script': script,
             'existing': rng.random() < 0.5, 'cmd_style': rng.choice(['cat', 'cat', 'printf']),
-            'preexisting': rng.random() < 0.25, 'preserve_times': rng.random() < 0.3}
+            'preexisting': rng.random() < 0.25, 'preserve_times': rng.random() < 0.3,
+            'old_bystanders': rng.random() < 0.3}
 
 
 def target_of(fl, base='w'):
@@ -154,6 +162,17 @@ def build_dir(case, d):
             import shutil as _sh
             _sh.copy2(os.path.join(d, src), os.path.join(d, target))
     parts.append('exit $(cat in_status)')
+    if case.get('old_bystanders'):
+        # files the command never touches, inside the directories given to the generator, whose modification time is
+        # older than their change time (copied with their times kept, extracted from an archive, chmod-ed later)
+        for sub in sorted({os.path.dirname(target_of(fl, os.path.basename(d))) for fl in case['files'] if fl['how'] in ('dir', 'dir2')}):
+            for name, data in (('README.txt', b'read me\n'), ('legend.csv', b'k,v\n1,2\n')):
+                pth = os.path.join(d, sub, name)
+                if not os.path.exists(pth):
+                    with open(pth, 'wb') as f:
+                        f.write(data)
+                    old = 1500000000 + len(name)
+                    os.utime(pth, (old, old))
     if case.get('existing'):
         with open(os.path.join(d, 'bystander.txt'), 'w') as f:
             f.write('I was here before\n')
